@@ -13,6 +13,12 @@ EXTENDS YPathSyntax, Json, CSV, IOUtils
 
 CONSTANTS Tokens, MaxLen, EmitLen,
           Prefix, Suffix     \* the text parsed in each state is Prefix \o body \o Suffix
+\* Token sets are defined HERE, not in the cfg files: TLC's cfg parser keeps backslash escapes in string literals ("\\"
+\* there is a two-character string), so a backslash or a double quote written in a cfg is not the character meant.
+TokFull == {".", "/", "[", "]", "(", ")", "'", "\"", "\\", " ", "&", "*", "!", "=", "^", "$", "%", "<", ">", "~", "+", "-", ":", ",", "a", "b", "1", "max"}
+TokCore4 == {".", "/", "[", "]", "(", ")", "'", "\\", " ", "&", "*", "=", "~", "+", "a", "max"}
+TokCore6 == {"/", "[", "]", "(", ")", "'", "\\", "=", "~", "a"}
+TokPinned == {".", "[", "]", "a"}
 VARIABLES body, n
 
 txt == Prefix \o body \o Suffix
